@@ -109,3 +109,17 @@ func Unblinded(signed *api.VersionedSignedProposal, marker uint64) *api.Versione
 	}
 	return out
 }
+
+// SignedBlindedBlock wraps a blinded proposal as the signed blinded block a beacon node sends for unblinding (zero signature).
+func SignedBlindedBlock(p *api.VersionedProposal) *api.VersionedSignedBlindedBeaconBlock {
+	out := &api.VersionedSignedBlindedBeaconBlock{Version: p.Version}
+	switch p.Version {
+	case spec.DataVersionBellatrix:
+		out.Bellatrix = &apiv1bellatrix.SignedBlindedBeaconBlock{Message: p.BellatrixBlinded}
+	case spec.DataVersionCapella:
+		out.Capella = &apiv1capella.SignedBlindedBeaconBlock{Message: p.CapellaBlinded}
+	case spec.DataVersionDeneb:
+		out.Deneb = &apiv1deneb.SignedBlindedBeaconBlock{Message: p.DenebBlinded}
+	}
+	return out
+}
